@@ -175,9 +175,11 @@ func (i Branch) String() string {
 }
 
 func (i Branch) adjust(offset int, state *GenState) SearchInstruction {
-	for idx := range i.Branches {
-		i.Branches[idx] += offset
+	branches := make([]int, len(i.Branches))
+	for idx, branch := range i.Branches {
+		branches[idx] = branch + offset
 	}
+	i.Branches = branches
 	return i
 }
 
